@@ -108,3 +108,21 @@ claim('C18', 'other',
 claim('C19', 'other',
       'static analysis: shape of the UNPREPARED arm (query text, keyspace iff keyspace flag, same host/connection/pool), terminal arms, no-send-after-'
       'terminal in _execute_after_prepare, re-send to the same host with fallback', 'CFG typestate dataflow + argument-role checks', _TB, _RF)
+
+claim('C20', 'other',
+      'static analysis: must-call-or-delegate dataflow for the completion callback through the four functions of the keyspace-switch chain (incl. nested '
+      'completion functions), accumulate-and-report reaching definition, must-record of the pool keyspace on every path, keyspace selected before '
+      'publication of new connections, confirmation-before-record in the connection',
+      'CFG must-call dataflow + reaching definitions', _TB, 'DESIGN.md section 5 C20')
+claim('C21', 'other',
+      'static analysis: event -> set-effect table of the built-in policies (copy-on-write under _hosts_lock), white-list membership agreement across '
+      'siblings, forwarding of all four events by every wrapper policy, slice agreement between distance() and plan, filter predicate dominance, '
+      'population by accumulation', 'sibling cross-check + idiom classification + lock regions', _TB, 'DESIGN.md section 5 C21')
+claim('C22', 'other',
+      'static analysis (narrow): the two yield conditions of the token-aware plan evaluated over the finite domain replica? x is_up x distance: exact '
+      'partition of the wrapped plan; source and order of replicas; fallbacks', 'finite-domain evaluation of guard ASTs', _TB, 'DESIGN.md section 5 C22')
+claim('C23', 'proof',
+      'the retry policy methods only compare their arguments, so their CFG paths form a complete finite decision table; every row is enumerated '
+      '(with _pick_consistency inlined) and every assertion of the property is discharged per row; exhaustive over all inputs under the stated '
+      'coordinator assumptions', 'exhaustive CFG path enumeration of comparison-only functions (decision tables)',
+      'trusted: CPython ast, sa/cfg.py path enumeration and atom normalisation; assumptions listed in the evidence', 'DESIGN.md section 5 C23')
